@@ -36,6 +36,19 @@ Streams (all from ctx.rng):
   * "data"    a stub callback returns synthetic result dictionaries (valid rational counts,
               invalid dual-rail states, missing / surplus results, empty results, zero counts);
   * "init"    constructor argument validation.
+RETAINED RESULTS (class Ledger; oracle-only, the model has no object identity).  Clients keep what they are handed:
+`rhos = [tomo.process() for value in sweep]`, `.rho`, `fidelity(...)`.  Every history keeps a ledger: for every matrix
+process() / .rho hand out THE VERY OBJECT plus a deep copy taken at that time and the |psi><psi| of the configuration
+it was computed for; for every object the fidelity it reported; for every container of the client that went INTO the
+library (the result dictionaries and the list the callback returned, the `experiment_args` list, the matrix given to
+fidelity()) the very object plus a copy.  All of it is re-checked after EVERY later step - the next process() of the
+same object (after a Parameter change, an added gate, new experiment_args), the work of other StateTomography objects
+(the second long-lived object, the fresh comparison objects, `other` objects on other circuits and of other sizes),
+a client writing into a returned matrix (`scribble`), a client clearing / refilling its own result dictionaries,
+args list, reference matrix (`clobber`): retained matrices unchanged and still |psi><psi| of THEIR configuration, no
+memory shared between the results of different calls or with client arrays, `.rho` / fidelity() of every object still
+those of its last process(), client containers exactly as the client left them.  A run-wide list additionally keeps
+every matrix any stream was handed (very object + copy) and re-checks them while the run goes on and at its end.
 A small directed corpus (HIST_CORPUS, the F28 matrix) always runs first.
 Observables only: the circuits the callback receives (n_modes, input_modes, heralds, U_full),
 the arguments it receives, process() / .rho, .fidelity(), state_fidelity, exception classes.
@@ -43,6 +56,7 @@ the arguments it receives, process() / .rho, .fidelity(), state_fidelity, except
 
 from __future__ import annotations
 
+import copy
 import json
 import os
 import random
@@ -293,7 +307,9 @@ def run_data(ctx: Ctx, case: dict) -> list[str]:
 
     tomo = StateTomography(n, lw.Circuit(2 * n), exp)
     try:
-        rho = np.array(tomo.process())
+        raw = tomo.process()
+        rho = np.array(raw)
+        retain_global(raw, "a matrix returned by process() in the data stream")
         impl = "ok"
     except Exception as e:  # noqa: BLE001
         impl = norm_exc(exc_class(e))
@@ -373,6 +389,7 @@ def make_experiment(cfg: dict, rec: dict, n: int, cache: dict | None = None):
             srng.shuffle(items)
             rec["returned"].append(items)
             out.append({lw.State(list(k)): v for k, v in items})
+        rec["out"] = out  # the very list of dictionaries that is handed to the library (it stays with the client)
         return out
 
     if cfg.get("kind") == "method":
@@ -404,11 +421,19 @@ def check_process_call(ctx: Ctx, n: int, base, tomo, rec: dict, in_state, mprog,
     rec.pop("by", None)
     rec.pop("bits", None)
     seen, returned = rec["seen"], rec["returned"]
+    rec.pop("out", None)
+    rec.pop("held", None)
     try:
-        rho = np.array(tomo.process())
+        raw = tomo.process()
+        rho = np.array(raw)
     except Exception as e:  # noqa: BLE001
         probs.append(f"oracle: process() raised {exc_class(e)} on noiseless data: {e}")
         return probs, None
+    retain_global(raw, f"a matrix returned by process() in the {stream} stream")
+    # ---- clause: client data is left alone: the dictionaries the callback returned are as it returned them
+    out_now = rec.get("out")
+    if out_now is not None and not results_intact(out_now, returned):
+        probs.append("oracle: process() changed the result dictionaries (or the list of them) the experiment returned")
     # ---- clause: the circuits the callback receives
     after = cg.observe(base)
     if (before["n"], before["in_heralds"], before["out_heralds"]) != (after["n"], after["in_heralds"], after["out_heralds"]) \
@@ -438,7 +463,7 @@ def check_process_call(ctx: Ctx, n: int, base, tomo, rec: dict, in_state, mprog,
         probs.append("oracle: the requested circuits do not cover every measurement setting exactly once")
     # ---- clause: rho is the density matrix of the prepared state
     ref = np.outer(psi, psi.conj()) / norm
-    detail = {"order": order, "norm": norm, "rho": rho, "psi": psi}
+    detail = {"order": order, "norm": norm, "rho": rho, "psi": psi, "raw": raw, "ref": ref, "attr": None, "ref_in": None, "fid": None}
     if rho.shape != ref.shape:
         probs.append(f"oracle: rho has shape {rho.shape}")
         return probs, None
@@ -449,16 +474,27 @@ def check_process_call(ctx: Ctx, n: int, base, tomo, rec: dict, in_state, mprog,
     if not np.all(np.abs(rho - ref) <= TOL):
         probs.append(f"oracle: rho differs from |psi><psi| of the state the base circuit prepares "
                      f"(max {np.abs(rho - ref).max():.2e})")
-    if not np.array_equal(np.array(tomo.rho), rho):
+    try:
+        detail["attr"] = tomo.rho
+    except Exception as e:  # noqa: BLE001
+        probs.append(f"oracle: .rho raised {exc_class(e)} after process()")
+    if detail["attr"] is not None and not np.array_equal(np.array(detail["attr"]), rho):
         probs.append("oracle: .rho differs from the matrix process() returned")
     # fidelity() of the (rank one, hence singular) reconstructed matrix.  Until the repair F28 the code
     # took scipy.linalg.sqrtm of it, which returns nan when rounding leaves entries of order 1e-35 in
     # the zero block (which entries appear depends on summation order, i.e. on the per-process
     # string hash seed: the failure was reproducible per process, not per run).
     try:
-        fid = tomo.fidelity(density_from_state(psi / np.sqrt(norm)))
+        ref_in = np.array(density_from_state(psi / np.sqrt(norm)))  # the client's own array
+        ref_cp = ref_in.copy()
+        fid = tomo.fidelity(ref_in)
+        detail["ref_in"], detail["fid"] = ref_in, fid
         if not abs(fid - 1) <= FID_TOL:  # (a nan must not pass)
             probs.append(f"oracle: fidelity against the prepared state is {fid}")
+        if not np.array_equal(ref_in, ref_cp):
+            probs.append("oracle: fidelity() changed the matrix it was given")
+        if not np.array_equal(np.array(raw), rho):
+            probs.append("oracle: fidelity() changed the matrix process() had returned")
     except Exception as e:  # noqa: BLE001
         probs.append(f"oracle: fidelity() raised {exc_class(e)}")
     if None in order or len(order) != 3**n or sorted(order) != sorted(tm.all_settings(n)):
@@ -518,6 +554,247 @@ def run_state(ctx: Ctx, case: dict, want_detail: bool = False):
     mprog = tm.model_prog(prog, case["in_bits"]) if tm.is_modelable(prog) else None
     probs, detail = check_process_call(ctx, n, base, tomo, rec, in_state, mprog, "state")
     return (probs, detail) if want_detail else probs
+
+
+
+# --------------------------------------------------------------------------- retained results
+#
+# see the module docstring.  (harness/props/c16.py keeps the same kind of ledger for the process tomography classes.)
+
+SCRIBBLES = ["zero", "scale", "elem", "adjoint"]
+# process() returns the object's own `.rho` ndarray on the unchanged library (no defensive copy), so a client writing
+# into the returned array is seen by `.rho` / fidelity() of THAT object until its next process().  Counted and reported
+# to the maintainers of the framework, not raised (set False to raise it).
+SCRIBBLE_MAY_SHOW_IN_OWNER = True
+
+
+def _same(a, b) -> bool:
+    """a retained value against its deep copy (bit for bit; type, dtype and shape included)"""
+    if isinstance(a, np.ndarray) or isinstance(b, np.ndarray):
+        return isinstance(a, np.ndarray) and isinstance(b, np.ndarray) and a.shape == b.shape \
+            and a.dtype == b.dtype and bool(np.array_equal(a, b, equal_nan=True))
+    try:
+        return type(a) is type(b) and bool(a == b)
+    except Exception:  # noqa: BLE001
+        return False
+
+
+def _maxdiff(a, b) -> str:
+    try:
+        return f"{np.abs(np.asarray(a) - np.asarray(b)).max():.3g}"
+    except Exception:  # noqa: BLE001
+        return "shape/type"
+
+
+def _overlap(a, b) -> bool:
+    return isinstance(a, np.ndarray) and isinstance(b, np.ndarray) and np.may_share_memory(a, b) \
+        and bool(np.shares_memory(a, b))
+
+
+def results_intact(out, returned: list) -> bool:
+    """the very list of dictionaries the callback handed over against what it put into them"""
+    try:
+        return isinstance(out, list) and len(out) == len(returned) and \
+            all(isinstance(d, dict) and [(tuple(k.s), v) for k, v in d.items()] == [(tuple(k), v) for k, v in items]
+                for d, items in zip(out, returned))
+    except Exception:  # noqa: BLE001
+        return False
+
+
+def rho_clauses(value, ref: np.ndarray) -> list[str]:
+    """the property's clauses for ONE retained matrix, for the configuration it was computed for"""
+    m = np.asarray(value)
+    if m.shape != ref.shape:
+        return [f"has shape {m.shape}, expected {ref.shape}"]
+    out = []
+    if not np.all(np.abs(m - m.conj().T) <= TOL):
+        out.append("is not Hermitian")
+    if not abs(np.trace(m) - 1) <= TOL:
+        out.append(f"has trace {np.trace(m)}")
+    if not np.all(np.abs(m - ref) <= TOL):
+        out.append(f"is not |psi><psi| of the state it was computed for (max {np.abs(m - ref).max():.2e})")
+    return out
+
+
+_GLOBAL: list = []  # every matrix any stream was handed: (very object, copy, what)
+_GLOBAL_CAP = 3000
+
+
+def retain_global(raw, what: str) -> None:
+    if isinstance(raw, np.ndarray) and len(_GLOBAL) < _GLOBAL_CAP:
+        _GLOBAL.append((raw, raw.copy(), what))
+
+
+def recheck_global(ctx: Ctx, when: str) -> None:
+    """matrices handed out earlier in this run (by any object, in any stream) are what they were, unless the client
+    itself wrote into them (scribbles update the copy)"""
+    for k, (raw, cp, what) in enumerate(_GLOBAL):
+        if not _same(raw, cp):
+            ctx.violation(f"oracle: retained result changed: {what} (the {k + 1}th matrix handed out in this run) is no longer "
+                          f"what was handed out (max difference {_maxdiff(raw, cp)}), noticed {when}",
+                          {"stream": "retained", "which": k, "what": what, "when": when}, sig={"kind": "retained result changed (run-wide)"})
+            _GLOBAL[k] = (raw, raw.copy(), what)
+            return
+    ctx.count("retained:run-wide-recheck:oracle-only")
+    ctx.count("retained:run-wide-matrices-rechecked", len(_GLOBAL))
+
+
+def _global_scribbled(raw) -> None:
+    for k, (r, _cp, what) in enumerate(_GLOBAL):
+        if r is raw or _overlap(r, raw):
+            _GLOBAL[k] = (r, r.copy(), what)
+
+
+class Ledger:
+    """every value handed out: the very object, a deep copy taken at the time, what it must satisfy"""
+
+    def __init__(self) -> None:
+        self.entries: list[dict] = []
+        self.owners: dict = {}
+        self.client: list[dict] = []
+        self.rechecks = 0
+
+    # -- registration
+    def hand_in(self, obj, what: str) -> dict:
+        """a container of the client that is handed to the library (reference matrix, args list, result dictionaries)"""
+        h = {"raw": obj, "copy": copy.deepcopy(obj), "what": what}
+        self.client.append(h)
+        return h
+
+    def keep(self, raw, what: str, call, ref: np.ndarray):
+        probs = []
+        if isinstance(raw, np.ndarray):
+            for e in self.entries:
+                if e["call"] != call and _overlap(raw, e["raw"]):
+                    probs.append(f"oracle: retained results alias each other: {what} "
+                                 + ("IS the very ndarray" if raw is e["raw"] else "shares memory with") + f" {e['what']}")
+                    break
+            for h in self.client:
+                if _overlap(raw, h["raw"]):
+                    probs.append(f"oracle: retained results alias each other: {what} shares memory with {h['what']}")
+                    break
+        e = {"raw": raw, "copy": copy.deepcopy(raw), "what": what, "call": call, "ref": ref, "live": True}
+        self.entries.append(e)
+        return e, probs
+
+    def set_owner(self, key, tomo, name: str, entry: dict, attr, ref_in, fid) -> None:
+        self.owners[key] = {"tomo": tomo, "what": name, "entry": entry, "attr_copy": copy.deepcopy(attr), "ref": ref_in, "fid": fid}
+
+    # -- the client post-processes a returned array in place
+    def scribble(self, ctx: Ctx, k: int, how: str):
+        arrs = [e for e in self.entries if isinstance(e["raw"], np.ndarray) and e["raw"].ndim == 2]
+        if not arrs:
+            ctx.count("hist:nothing-to-scribble-on")
+            return None
+        e = arrs[k % len(arrs)]
+        raw = e["raw"]
+        if not raw.flags.writeable:
+            ctx.count("hist:returned-array-is-read-only (not scribbled on)")
+            return None
+        if how == "zero":
+            raw[...] = 0
+        elif how == "scale":
+            raw *= -2
+        elif how == "elem":
+            raw[0, -1] += 1
+        else:
+            raw[...] = raw.conj().T.copy() + 1j
+        ctx.count("hist:scribble-" + how)
+        for e2 in self.entries:  # (.rho read after the call is the same ndarray on the unchanged library)
+            if e2 is e or e2["raw"] is raw or (e2["call"] == e["call"] and _overlap(e2["raw"], raw)):
+                e2["copy"] = copy.deepcopy(e2["raw"])
+                e2["live"] = False
+                if "(then written into by the client)" not in e2["what"]:
+                    e2["what"] += " (then written into by the client)"
+        _global_scribbled(raw)
+        for o in self.owners.values():
+            if o["entry"] is not e and o["entry"]["call"] != e["call"]:
+                continue
+            try:
+                cur = o["tomo"].rho
+            except Exception:  # noqa: BLE001, S112  (reported by the next recheck)
+                continue
+            if cur is raw or _overlap(cur, raw):
+                ctx.count("hist:scribble-shows-in-.rho-of-the-object (process() returns the object's own ndarray)")
+                if SCRIBBLE_MAY_SHOW_IN_OWNER:
+                    o["attr_copy"] = copy.deepcopy(cur)
+                    o["fid"] = None
+            else:
+                ctx.count("hist:scribble-on-a-copy (the object keeps its own array)")
+        return e["what"]
+
+    def clobbered(self, h: dict) -> None:
+        """the client itself changed one of its containers"""
+        h["copy"] = copy.deepcopy(h["raw"])
+
+    # -- re-check everything after a later step
+    def recheck(self, ctx: Ctx, after: str, worked=None) -> list[str]:
+        """`worked`: the object whose own process() is the step (its .rho / fidelity() now report the new result; what it
+        handed out BEFORE stays on the books as entries)"""
+        probs = []
+        for e in self.entries:
+            self.rechecks += 1
+            if not _same(e["raw"], e["copy"]):
+                probs.append(f"oracle: retained result changed: {e['what']} is no longer what was handed out "
+                             f"(max difference {_maxdiff(e['raw'], e['copy'])}) after {after}")
+                e["copy"] = copy.deepcopy(e["raw"])
+                e["live"] = False
+            elif e["live"]:
+                bad = rho_clauses(e["raw"], e["ref"])
+                if bad:
+                    probs.append(f"oracle: retained result no longer satisfies its clauses: {e['what']} {bad[0]}, after {after}")
+                    e["live"] = False
+        for h in self.client:
+            self.rechecks += 1
+            if not _same(h["raw"], h["copy"]):
+                probs.append(f"oracle: client data modified: {h['what']} is not what the client left there, after {after}")
+                h["copy"] = copy.deepcopy(h["raw"])
+        for key, o in self.owners.items():
+            if key == worked:
+                continue
+            self.rechecks += 1
+            try:
+                cur = o["tomo"].rho
+            except Exception as e:  # noqa: BLE001
+                probs.append(f"oracle: retained result changed: .rho of {o['what']} raises {exc_class(e)} after {after}")
+                continue
+            if not _same(cur, o["attr_copy"]):
+                probs.append(f"oracle: retained result changed: .rho of {o['what']} no longer is what its last process() "
+                             f"returned (max difference {_maxdiff(cur, o['attr_copy'])}) after {after}")
+                o["attr_copy"] = copy.deepcopy(cur)
+                o["fid"] = None
+            elif o["fid"] is not None and o["ref"] is not None:
+                try:
+                    f = o["tomo"].fidelity(o["ref"])
+                except Exception as e:  # noqa: BLE001
+                    probs.append(f"oracle: retained result changed: fidelity() of {o['what']} raises {exc_class(e)} after {after}")
+                    o["fid"] = None
+                    continue
+                if not abs(f - o["fid"]) <= 1e-12:
+                    probs.append(f"oracle: retained result changed: fidelity() of {o['what']} against the same matrix now "
+                                 f"reports {f:.9f}, it reported {o['fid']:.9f} after its process(), after {after}")
+                    o["fid"] = f
+        return probs
+
+
+def retain_call(ctx: Ctx, led: Ledger, tomo, name: str, key, call_no: int, detail: dict, rec: dict | None) -> list[str]:
+    """register everything ONE process() call handed out, everything that went into it, and what the object now reports"""
+    call = (key, call_no)
+    raw, attr = detail["raw"], detail["attr"]
+    e, probs = led.keep(raw, f"the matrix returned by process() call #{call_no} of {name}", call, detail["ref"])
+    if not isinstance(raw, np.ndarray):
+        ctx.count("hist:process()-does-not-return-an-ndarray")
+    if attr is raw:
+        ctx.count("hist:.rho-is-the-returned-ndarray")
+    elif isinstance(attr, np.ndarray):
+        _, p2 = led.keep(attr, f".rho of {name} read after its process() call #{call_no}", call, detail["ref"])
+        probs += p2
+    if detail["ref_in"] is not None:
+        led.hand_in(detail["ref_in"], f"the matrix handed to fidelity() of {name} after its process() call #{call_no}")
+    led.set_owner(key, tomo, name, e, attr, detail["ref_in"], detail["fid"])
+    if rec is not None and rec.get("out") is not None:
+        rec["held"] = led.hand_in(rec["out"], f"the result dictionaries the experiment returned to process() call #{call_no} of {name}")
+    return probs
 
 
 # --------------------------------------------------------------------------- histories on long-lived objects
@@ -660,7 +937,11 @@ def gen_hist_case(ctx: Ctx, rng) -> dict:
             elif x < 0.5 and state[o]["exp"]["kind"] != "one-arg":
                 cur = state[o]["args"] if state[o]["args"] is not None else state[o]["exp"]["in_bits"]
                 bits = None if (state[o]["args"] is not None and rng.random() < 0.2) else other_bits(rng, n, cur)
-                steps.append({"op": "setargs", "obj": o, "args": bits})
+                if bits is not None and state[o]["args"] is not None and rng.random() < 0.45:
+                    # the client refills the list it handed over (in place) and assigns it again
+                    steps.append({"op": "clobber", "what": "args", "obj": o, "args": bits})
+                else:
+                    steps.append({"op": "setargs", "obj": o, "args": bits})
                 state[o]["args"] = bits
             elif x < 0.65:
                 what = rng.choice(TIDY_OPS)
@@ -675,7 +956,34 @@ def gen_hist_case(ctx: Ctx, rng) -> dict:
         if rng.random() < 0.15:
             who = who + [who[0]]  # repeated call without any change
         steps += [{"op": "process", "obj": o} for o in who]
+    # what clients do with what they were handed / with what they handed over, and other objects at work, at random
+    # points after the first process()
+    first = next(k for k, st in enumerate(steps) if st["op"] == "process")
+
+    def ins(st: dict) -> None:
+        steps.insert(rng.randint(first + 1, len(steps)), st)
+
+    if rng.random() < 0.35:
+        for _ in range(rng.choice([1, 1, 2])):
+            ins({"op": "scribble", "entry": rng.randrange(64), "how": rng.choice(SCRIBBLES)})
+    if rng.random() < 0.35:
+        ins({"op": "clobber", "what": "results", "how": rng.choice(["clear-dicts", "zero-counts", "drop-list"])})
+    if rng.random() < 0.2:
+        ins({"op": "clobber", "what": "ref"})
+    if rng.random() < 0.4:
+        for _ in range(rng.choice([1, 1, 2])):
+            ins(rand_other(rng, n))
     return {"stream": "hist", "n": n, "params": params, "steps": steps}
+
+
+def rand_other(rng, n: int) -> dict:
+    """a StateTomography object of its own: same size as the history's (55%) or another one, small circuit"""
+    n2 = n if rng.random() < 0.55 else rng.choice([k for k in (1, 2) if k != n] or [1])
+    prog = tm.rand_gate_program(rng, n2, max_len=1 + 2 * n2, max_her=0)
+    if not prog:
+        prog = [[rng.choice(["H", "SX"]), 0], [rng.choice(["S", "T", "Y"]), rng.randrange(n2)]]
+    return {"op": "other", "n": n2, "prog": prog, "bits": [rng.randint(0, 1) if rng.random() < 0.3 else 0 for _ in range(n2)],
+            "shuffle": rng.randrange(1 << 30)}
 
 
 HIST_CORPUS = [
@@ -742,6 +1050,48 @@ HIST_CORPUS = [
         {"op": "process", "obj": 0},
         {"op": "tidy", "what": "unpack_groups"},
         {"op": "process", "obj": 0}]},
+    # a Parameter sweep on ONE object, `rhos = [tomo.process() for value in sweep]`: every collected matrix is looked at
+    # after the sweep; then the client zeroes the first one, other objects (same size, another size) work, the client
+    # clears its result dictionaries and the matrices it gave to fidelity(), and the sweep goes on
+    {"stream": "hist", "n": 2, "params": {"0": {"kind": "refl", "v": 0.5}, "1": {"kind": "phase", "k": 0}}, "steps": [
+        {"op": "extend", "gates": [["PBS", 0, "0"], ["PPS", 0, 1, "1"], ["H", 1], ["CNOT", 0, 1, {"impl": "ps"}]], "how": "each"},
+        {"op": "new", "obj": 0, "exp": {"source": "sim", "drop_zero": False, "shuffle": 9, "in_bits": [0, 0],
+                                        "kind": "function"}, "args": None},
+        {"op": "setparam", "pid": "0", "v": 0.2}, {"op": "setparam", "pid": "1", "k": 1},
+        {"op": "process", "obj": 0},
+        {"op": "setparam", "pid": "0", "v": 0.5}, {"op": "setparam", "pid": "1", "k": 3},
+        {"op": "process", "obj": 0},
+        {"op": "setparam", "pid": "0", "v": 0.9}, {"op": "setparam", "pid": "1", "k": 6},
+        {"op": "process", "obj": 0},
+        {"op": "scribble", "entry": 0, "how": "zero"},
+        {"op": "other", "n": 2, "prog": [["SX", 0], ["H", 1], ["CZ", 0, 1, {"impl": "ps"}]], "bits": [0, 1], "shuffle": 10},
+        {"op": "other", "n": 1, "prog": [["H", 0], ["T", 0]], "bits": [0], "shuffle": 11},
+        {"op": "clobber", "what": "results", "how": "clear-dicts"},
+        {"op": "clobber", "what": "ref"},
+        {"op": "setparam", "pid": "1", "k": 4},
+        {"op": "process", "obj": 0},
+        {"op": "scribble", "entry": 5, "how": "scale"},
+        {"op": "process", "obj": 0}]},
+    # one qubit, a gate added between the calls, two objects on the one circuit, the experiment_args list refilled in
+    # place for the next run; results of all calls kept
+    {"stream": "hist", "n": 1, "params": {}, "steps": [
+        {"op": "extend", "gates": [["H", 0]], "how": "each"},
+        {"op": "new", "obj": 0, "exp": {"source": "sim", "drop_zero": False, "shuffle": 12, "in_bits": [0],
+                                        "kind": "function"}, "args": [0]},
+        {"op": "new", "obj": 1, "exp": {"source": "permanent", "drop_zero": True, "shuffle": 13, "in_bits": [1],
+                                        "kind": "method"}, "args": [1]},
+        {"op": "process", "obj": 0},
+        {"op": "process", "obj": 1},
+        {"op": "extend", "gates": [["T", 0]], "how": "each"},
+        {"op": "process", "obj": 0},
+        {"op": "clobber", "what": "args", "obj": 0, "args": [1]},
+        {"op": "process", "obj": 0},
+        {"op": "clobber", "what": "results", "how": "drop-list"},
+        {"op": "extend", "gates": [["SX", 0]], "how": "group"},
+        {"op": "clobber", "what": "args", "obj": 1, "args": [0]},
+        {"op": "process", "obj": 1},
+        {"op": "other", "n": 1, "prog": [["SX", 0]], "bits": [1], "shuffle": 14},
+        {"op": "process", "obj": 0}]},
 ]
 
 
@@ -754,7 +1104,9 @@ def run_hist(ctx: Ctx, case: dict, want_info: bool = False):
     objs: dict = {}
     cache: dict = {}
     probs: list[str] = []
-    info = {"processes": 0, "state_changed_between_calls": 0, "modes_changed_between_calls": 0, "ops": set()}
+    led = Ledger()
+    info = {"processes": 0, "state_changed_between_calls": 0, "modes_changed_between_calls": 0, "ops": set(), "ledger": led,
+            "retained_while_another_object_works": 0}
     unpacked_with_heralds = False
     for i, st in enumerate(case["steps"]):
         op = st["op"]
@@ -762,16 +1114,18 @@ def run_hist(ctx: Ctx, case: dict, want_info: bool = False):
             rec = {"seen": [], "returned": []}
             cfg = dict(st["exp"])
             args = st.get("args")
+            alist = None if args is None else [list(args)]  # the client's own list
             try:
-                tomo = StateTomography(n, base, make_experiment(cfg, rec, n, cache),
-                                       None if args is None else [list(args)])
+                tomo = StateTomography(n, base, make_experiment(cfg, rec, n, cache), alist)
             except Exception as e:  # noqa: BLE001
                 # every callback form generated here (function, lambda, bound method) is a valid experiment
                 probs.append(f"oracle: hist: step #{i} constructing StateTomography with a {cfg.get('kind') or 'function'} "
                              f"callback raised {exc_class(e)}")
                 break
             objs[st["obj"]] = {"tomo": tomo, "rec": rec, "cfg": cfg, "args": args, "last": None, "calls": 0,
-                               "pending": set()}
+                               "pending": set(), "alist": alist,
+                               "ahand": None if alist is None else led.hand_in(alist, f"the experiment_args list of object {st['obj']}")}
+            probs += [f"{x} [history step {i}]" for x in led.recheck(ctx, f"the construction of StateTomography object {st['obj']}")]
             continue
         if op == "process":
             if st["obj"] not in objs:
@@ -785,13 +1139,21 @@ def run_hist(ctx: Ctx, case: dict, want_info: bool = False):
             info["processes"] += 1
             where = f" [history step {i}: process() call #{o['calls']} on this object" + \
                     (f", after {'+'.join(sorted(o['pending']))}" if o["pending"] else "") + "]"
+            key = ("obj", st["obj"])
+            name = f"StateTomography object {st['obj']}"
+            info["retained_while_another_object_works"] += sum(1 for k2 in led.owners if k2 != key)
+            # what was handed out before (by this object, by others) survives this call; then its results go on the books
+            p += led.recheck(ctx, f"process() call #{o['calls']} of {name}" +
+                             (f" (after {'+'.join(sorted(o['pending']))})" if o["pending"] else ""), worked=key)
+            if detail is not None:
+                p += retain_call(ctx, led, o["tomo"], name, key, o["calls"], detail, o["rec"])
             if detail is not None and o["rec"].get("bits") != bits:
                 p.append(f"oracle: the callback was handed experiment_args {o['rec'].get('bits')}, the object's "
                          f"current experiment / experiment_args say {bits}")
             if detail is not None and o["rec"].get("by") != o["cfg"]["shuffle"]:
                 p.append("oracle: process() did not call the experiment currently assigned to the object")
             if detail is not None:
-                p += compare_with_fresh(ctx, n, base, o, bits, detail, cache)
+                p += compare_with_fresh(ctx, n, base, o, bits, detail, cache, led, i)
                 cur = (detail["psi"] / np.sqrt(detail["norm"]), base.n_modes)
                 if o["last"] is not None:
                     for kind in o["pending"]:
@@ -833,7 +1195,9 @@ def run_hist(ctx: Ctx, case: dict, want_info: bool = False):
             if o["cfg"]["kind"] == "one-arg" and st["args"] is not None:
                 raise MachineryFault("history hands extra arguments to a one-argument callback")
             o["args"] = st["args"]
-            o["tomo"].experiment_args = None if st["args"] is None else [list(st["args"])]
+            o["alist"] = None if st["args"] is None else [list(st["args"])]
+            o["ahand"] = None if o["alist"] is None else led.hand_in(o["alist"], f"the experiment_args list of object {st['obj']}")
+            o["tomo"].experiment_args = o["alist"]
         elif op == "tidy":
             if st["what"] == "barrier":
                 base.barrier()
@@ -842,16 +1206,103 @@ def run_hist(ctx: Ctx, case: dict, want_info: bool = False):
             if st["what"] == "unpack_groups" and base.heralds["output"]:
                 unpacked_with_heralds = True
             tag = "tidy-" + st["what"]
+        elif op == "scribble":
+            # the client post-processes a matrix it was handed, in place
+            w = led.scribble(ctx, st["entry"], st["how"])
+            if w is None:
+                continue
+            probs += [f"{x} [history step {i}]" for x in led.recheck(ctx, f"the client wrote into {w} ({st['how']})")]
+            continue
+        elif op == "clobber":
+            # the client re-uses ITS OWN containers that went into the library earlier
+            what = st["what"]
+            if what == "results":
+                done = 0
+                for o in objs.values():
+                    h = o["rec"].get("held")
+                    if h is None:
+                        continue
+                    out = h["raw"]
+                    if st["how"] == "clear-dicts":
+                        for d in out:
+                            d.clear()
+                    elif st["how"] == "zero-counts":
+                        for d in out:
+                            for k in d:
+                                d[k] = 0
+                    else:
+                        out.clear()
+                    led.clobbered(h)
+                    done += 1
+                if not done:
+                    continue
+                after = f"the client cleared ({st['how']}) the result dictionaries its experiment had returned"
+            elif what == "ref":
+                done = 0
+                for ow in led.owners.values():
+                    h = next((h for h in led.client if h["raw"] is ow["ref"]), None)
+                    if h is None or ow["ref"] is None:
+                        continue
+                    spare = h["copy"].copy()
+                    ow["ref"][...] = 0
+                    led.clobbered(h)
+                    ow["ref"] = spare  # (a matrix with the same values: fidelity() against it must report what it did)
+                    led.hand_in(spare, f"the matrix handed to fidelity() of {ow['what']} (second copy)")
+                    done += 1
+                if not done:
+                    continue
+                after = "the client zeroed the matrices it had handed to fidelity()"
+            elif what == "args":
+                o = objs.get(st["obj"])
+                if o is None or o["alist"] is None or o["cfg"]["kind"] == "one-arg":
+                    raise MachineryFault("history refills the experiment_args list of an object that has none")
+                o["alist"][0][:] = list(st["args"])  # refilled in place ...
+                led.clobbered(o["ahand"])
+                o["tomo"].experiment_args = o["alist"]  # ... and handed over again
+                o["args"] = list(st["args"])
+                o["pending"].add("experiment_args-list-refilled-in-place")
+                after = f"the client refilled the experiment_args list of object {st['obj']} in place and assigned it again"
+            else:
+                raise MachineryFault(f"unknown clobber {what}")
+            ctx.count(f"hist:client-reuses-its-{what}" + (":" + st["how"] if "how" in st else ""))
+            probs += [f"{x} [history step {i}]" for x in led.recheck(ctx, after)]
+            continue
+        elif op == "other":
+            # another StateTomography object, on a circuit of its own (same or another size), does its work in between
+            n2 = st["n"]
+            base2 = tm.build_base(n2, st["prog"])
+            rec2 = {"seen": [], "returned": []}
+            cfg2 = {"source": "sim", "drop_zero": False, "shuffle": st["shuffle"], "in_bits": list(st["bits"]), "kind": "one-arg"}
+            okey = ("other", i)
+            oname = f"another StateTomography object (n = {n2}, step {i})"
+            try:
+                tomo2 = StateTomography(n2, base2, make_experiment(cfg2, rec2, n2, cache))
+                p2, det2 = check_process_call(ctx, n2, base2, tomo2, rec2, tm.input_state(st["bits"]), None, "hist")
+            except MachineryFault:
+                raise
+            except Exception as e:  # noqa: BLE001
+                probs.append(f"oracle: hist: {oname} raised {exc_class(e)} [history step {i}]")
+                continue
+            info["retained_while_another_object_works"] += len(led.owners)
+            ctx.count("hist:other-object-works:" + ("same-size" if n2 == n else "another-size"))
+            p2 += led.recheck(ctx, f"the process() of {oname}", worked=okey)
+            if det2 is not None:
+                p2 += retain_call(ctx, led, tomo2, oname, okey, 1, det2, rec2)
+            probs += [f"{x} [history step {i}]" for x in p2]
+            continue
         else:
             raise MachineryFault(f"unknown history step {op}")
         for k, o in objs.items():
             if op in ("setexp", "setargs") and k != st["obj"]:
                 continue
             o["pending"].add(tag)
+        # a change of what FUTURE results depend on changes nothing that was handed out already
+        probs += [f"{x} [history step {i}]" for x in led.recheck(ctx, tag)]
     return (probs, info) if want_info else probs
 
 
-def compare_with_fresh(ctx: Ctx, n: int, base, o: dict, bits: list, detail: dict, cache: dict) -> list[str]:
+def compare_with_fresh(ctx: Ctx, n: int, base, o: dict, bits: list, detail: dict, cache: dict,
+                       led: "Ledger | None" = None, step: int = 0) -> list[str]:
     """a StateTomography constructed NOW on the same base circuit, same data source: the circuits it
     requests and the matrix it returns are what the long-lived object must have produced too"""
     probs: list[str] = []
@@ -859,9 +1310,24 @@ def compare_with_fresh(ctx: Ctx, n: int, base, o: dict, bits: list, detail: dict
     fcfg = dict(o["cfg"], in_bits=bits, kind="one-arg")
     long_seen = list(o["rec"]["seen"])
     try:
-        frho = np.array(StateTomography(n, base, make_experiment(fcfg, frec, n, cache)).process())
+        ftomo = StateTomography(n, base, make_experiment(fcfg, frec, n, cache))
+        fraw = ftomo.process()
+        frho = np.array(fraw)
     except Exception as e:  # noqa: BLE001
         return [f"oracle: process() of a fresh StateTomography on the same base circuit raised {exc_class(e)}"]
+    retain_global(fraw, "a matrix returned by process() of a fresh comparison object in the hist stream")
+    if led is not None:
+        # the fresh object is one more StateTomography at work: nothing on the books may move, and what it hands out
+        # goes on the books as well (the object stays alive)
+        fkey = ("fresh", step, len(led.entries))
+        fname = f"the fresh comparison object of step {step}"
+        probs += led.recheck(ctx, f"the process() of {fname}", worked=fkey)
+        fdet = {"raw": fraw, "attr": None, "ref": detail["ref"], "ref_in": None, "fid": None}
+        try:
+            fdet["attr"] = ftomo.rho
+        except Exception as e:  # noqa: BLE001
+            probs.append(f"oracle: .rho of {fname} raised {exc_class(e)}")
+        probs += retain_call(ctx, led, ftomo, fname, fkey, 1, fdet, frec)
     uf = np.array(base.U_full)
     vis = tm.visible_modes(base)
     forder = [tm.identify_setting(c, uf, vis, n)[0] for c in frec["seen"]]
@@ -1249,9 +1715,11 @@ def run_fidp(ctx: Ctx, case: dict) -> list[str]:
     tomo = StateTomography(n, lw.Circuit(2 * n), exp)
     ctx.count("fidp:" + case["kind"])
     try:
-        rho = np.array(tomo.process())
+        raw = tomo.process()
+        rho = np.array(raw)
     except Exception as e:  # noqa: BLE001
         return [f"oracle: process() raised {exc_class(e)} on the exact outcome probabilities of a pure state"]
+    retain_global(raw, "a matrix returned by process() in the fidp stream")
     ref = density_from_state(psi)
     probs = []
     if rho.shape != ref.shape or not np.all(np.abs(rho - ref) <= TOL):
@@ -1407,7 +1875,11 @@ def run(ctx: Ctx) -> None:
                 "mode-level circuits), noiseless callback; non-trivial = prepared state has >= 2 non-zero amplitudes "
                 "(superposition) ; distinct = distinct (n, program, input). hist stream: long-lived StateTomography "
                 "objects, process() -> mutate base circuit / Parameter / experiment / experiment_args -> process() "
-                "again, every call checked as in the state stream and against a fresh object; non-trivial = the "
+                "again, every call checked as in the state stream and against a fresh object; every matrix / fidelity "
+                "handed out and every client container handed in (result dictionaries, experiment_args list, reference "
+                "matrix) is kept on a ledger (very object + copy) and re-checked after every later step, incl. the work "
+                "of other StateTomography objects (same / other size), client writes into returned matrices and the "
+                "client clearing / refilling its own containers; non-trivial = the "
                 "prepared state changed between two calls on one object. fid / fidmix / fidp streams: state_fidelity "
                 "and fidelity() on pure-state matrices with rounding residue (0, 1e-40..1e-17), on mixed states "
                 "against the closed formula, and on matrices process() computed; non-trivial = residue present / "
@@ -1437,6 +1909,9 @@ def run(ctx: Ctx) -> None:
         if any(st["op"] == "extend" and any(g[0] in ("MODEU", "PRIM", "PBS") for g in st["gates"])
                for st in case["steps"]):
             ctx.count("hist:oracle-only")
+        ctx.count("hist:retained-results-rechecked:oracle-only", info["ledger"].rechecks)
+        ctx.count("hist:results-on-the-books-while-another-object-works", info["retained_while_another_object_works"])
+        recheck_global(ctx, "after a history")
         ctx.case(case_key(case), info["state_changed_between_calls"] > 0)
         if probs:
             report(ctx, case, probs)
@@ -1485,6 +1960,9 @@ def run(ctx: Ctx) -> None:
                  sample={"n": n, "prog": case["prog"], "order": detail and detail["order"]} if i < 2 else None)
         if probs:
             report(ctx, case, probs)
+        if i % 25 == 24:
+            recheck_global(ctx, "during the state stream")
+    recheck_global(ctx, "after the state stream")
     hrng = random.Random(f"C15-hist-{ctx.seed}")  # own streams: the older streams keep their cases per seed
     for _ in range(n_hist):
         if ctx.out_of_time():
@@ -1525,6 +2003,7 @@ def run(ctx: Ctx) -> None:
         ctx.case(json.dumps(case), False)
         if probs:
             report(ctx, case, probs)
+    recheck_global(ctx, "at the end of the run")
     for n in (1, 2, 3):
         if ("order", n) in _META:
             ctx.extra.setdefault("callback_order_this_process", {})[str(n)] = _META[("order", n)]
